@@ -23,7 +23,7 @@ CMAKE_COMMON = [
 BASEFLAGS = "-O1 -g1 -DNDEBUG -DUCL_STIR_VERIF -fno-omit-frame-pointer -w"
 VARIANTS = {
     # name: (STIR_OPENMP, extra compile flags for STIR and harness, link flags, simrt objects)
-    "seq": dict(openmp="OFF", cxx=BASEFLAGS + " -fsanitize=address", link="-fsanitize=address",
+    "seq": dict(openmp="OFF", cxx=BASEFLAGS + " -fsanitize=address -D_GLIBCXX_SANITIZE_VECTOR", link="-fsanitize=address",
                 simrt=["simcore", "simlibc"]),
     "omp": dict(openmp="ON", cxx=BASEFLAGS + " -fsanitize=thread", link="",
                 simrt=["simcore", "simlibc", "simgomp", "simtsan"]),
@@ -48,13 +48,18 @@ def build_variant(variant, quiet=True):
     v = VARIANTS[variant]
     bdir = os.path.join(BUILD, variant)
     os.makedirs(bdir, exist_ok=True)
-    if not os.path.exists(os.path.join(bdir, "build.ninja")):
+    stamp = os.path.join(bdir, "verif_flags.txt")
+    want = REPO + "\n" + v["openmp"] + "\n" + v["cxx"] + "\n"
+    have = open(stamp).read() if os.path.exists(stamp) else None
+    if not os.path.exists(os.path.join(bdir, "build.ninja")) or (have is not None and have != want):
         cmd = ["cmake", "-G", "Ninja", "-S", REPO, "-B", bdir] + CMAKE_COMMON + [
             "-DSTIR_OPENMP=" + v["openmp"], "-DCMAKE_CXX_FLAGS=" + v["cxx"]]
         r = sh(cmd, stdout=subprocess.PIPE, stderr=subprocess.STDOUT, text=True)
         if r.returncode != 0:
             log(r.stdout)
             raise SystemExit("cmake configure failed for variant " + variant)
+    if have != want:
+        open(stamp, "w").write(want)
     r = sh(["ninja", "-C", bdir, "-j", str(NPROC)], stdout=subprocess.PIPE, stderr=subprocess.STDOUT, text=True)
     if r.returncode != 0:
         log(r.stdout[-6000:])
